@@ -15,7 +15,7 @@ PASSIVE_UNDER_TESTS = True
 RULE = ("cases = h1(data, bins, weights, dtype, keep_missed, dropna) with data aimed at every edge (on it, one ulp beside), "
         "gaps (also gaps far below numpy's allclose tolerance), far outside, NaN / None / object arrays; bins as edges/pairs/gapped pairs/binning objects/int/method names; "
         "non-trivial = >= 2 bins, >= 1 value on or one ulp beside an edge, >= 2 different destinations "
-        "(bin/underflow/overflow/gap/NaN) occupied; distinct by hash of (bins, data, weights, flags)")
+        "(bin/underflow/overflow/gap/NaN) occupied; distinct by hash of (bins, data, weights, flags) Plus `big_square_case`: integer weights whose squares (or sums of squares) leave 64-bit integers while contents stay small - errors2 exact or the request refused, for h1 and fill_n.")
 ASSUMPTIONS = [
     "membership is judged on the edges the returned histogram reports (whether those are the right edges is C07)",
     "weights are small dyadic rationals (also as int8 .. float16 arrays), so every sum is exact and compared with ==; general float weights (also magnitudes 2**60 next to 1) are compared bin by bin within n_bin * eps of that bin's own weight sum",
